@@ -156,6 +156,10 @@ def histories(spec, cat, gold, model, tier):
     if model == "ovni":
         s0 = idx[rels[0][0]]
         out.append(("flush", start() + [Ev(s0, "OF["), Ev(s0, "OF]")] + stop(), ()))
+        # the trace goes on after the last change of any timeline: events that show nowhere (a burst, an empty unordered
+        # region, a flush pair of a dead thread is what libovni itself leaves) still move the end of the trace
+        out.append(("quiet-tail", start() + stop() + [Ev(s0, "OB."), Ev(s0, "OU["), Ev(s0, "OU]"), Ev(s0, "OB.")], ()))
+        out.append(("quiet-tail-flush", start() + [Ev(s0, "OB.")] + stop() + [Ev(s0, "OF["), Ev(s0, "OF]")], ()))
         l0 = rels[0][1]
         nth0 = sum(1 for r in rels if r[1]["name"] == l0["name"])
         if nth0 < len(l0["cpus"]):
